@@ -112,6 +112,9 @@ def impl_acy(case):
         G = build(case, lab)
     except Exception as e:
         return {"graph": "err:build:" + type(e).__name__}
+    if C.warm_decide(case, 4):
+        # query, edit the same object in place, query again (see common.warmup)
+        C.warmup(G, lambda: acyclification(G), layers=("directed", "bidirected"))
     before = C.snapshot(G)
     try:
         A = acyclification(G)
